@@ -128,6 +128,57 @@ theorem prefix_hom (l0 : List IoEntry) : BusHom (IoZX.withPrefix l0) where
   nmiActive _ := rfl
   pcCallback _ _ := rfl
 
+/-- put older entries behind the machine's own ghost histories (`tlog`, `wlog`: newest first) -/
+def ZX.withOlder (T : List (BitVec 8 × TOp)) (W : List (Nat × Nat × BitVec 8)) (z : ZX) : ZX :=
+  { z with tlog := z.tlog ++ T, wlog := z.wlog ++ W }
+
+def IoZX.withOlder (T : List (BitVec 8 × TOp)) (W : List (Nat × Nat × BitVec 8)) (x : IoZX) : IoZX :=
+  { x with zx := x.zx.withOlder T W }
+
+theorem ZX.writeIo_withOlder (T : List (BitVec 8 × TOp)) (W : List (Nat × Nat × BitVec 8)) (p : BitVec 16)
+    (v : BitVec 8) (z : ZX) : ZX.writeIo p v (z.withOlder T W) = (ZX.writeIo p v z).withOlder T W := by
+  unfold ZX.writeIo
+  have : (z.withOlder T W).cfg = z.cfg := rfl
+  rw [this]
+  cases writeDecode z.cfg p <;> rfl
+
+theorem ZX.writeInternal_withOlder (T : List (BitVec 8 × TOp)) (W : List (Nat × Nat × BitVec 8)) (a : BitVec 16)
+    (v : BitVec 8) (z : ZX) :
+    Bus.writeInternal a v (z.withOlder T W) = (Bus.writeInternal a v z).withOlder T W := by
+  have h : ∀ z' : ZX, Bus.writeInternal a v z' =
+      { z' with ctl := z'.ctl.writeInternal a v,
+                wlog := match z'.ctl.mem.pagedAddress a with
+                  | (.ram p, off) => (p, off, v) :: z'.wlog
+                  | (.rom _, _) => z'.wlog } := fun _ => rfl
+  rw [h, h]
+  unfold ZX.withOlder
+  simp only []
+  generalize z.ctl.mem.pagedAddress a = q
+  obtain ⟨pg, off⟩ := q
+  cases pg <;> rfl
+
+/-- the machine's ghost histories are only ever prepended to and never read: what lies behind them has
+no influence on anything else, in particular not on the port log -/
+theorem older_hom (T : List (BitVec 8 × TOp)) (W : List (Nat × Nat × BitVec 8)) : BusHom (IoZX.withOlder T W) where
+  waitMreq _ _ _ := rfl
+  waitNoMreq _ _ _ := rfl
+  waitInternal _ _ := rfl
+  readInternal _ _ := rfl
+  writeInternal a v x := by
+    show IoZX.mk (Bus.writeInternal a v (x.zx.withOlder T W)) x.log = IoZX.mk ((Bus.writeInternal a v x.zx).withOlder T W) x.log
+    rw [ZX.writeInternal_withOlder]
+  readIo _ _ := rfl
+  writeIo p v x := by
+    show IoZX.mk (ZX.writeIo p v (x.zx.withOlder T W)) (x.log ++ [writeEntry (x.zx.withOlder T W) p v]) =
+      IoZX.mk ((ZX.writeIo p v x.zx).withOlder T W) (x.log ++ [writeEntry x.zx p v])
+    rw [ZX.writeIo_withOlder]; rfl
+  readInterrupt _ := rfl
+  reti _ := rfl
+  halt _ _ := rfl
+  intActive _ := rfl
+  nmiActive _ := rfl
+  pcCallback _ _ := rfl
+
 /-- the AY port operation an entry stands for, if any -/
 def ayOp : IoEntry → Option PortOp
   | .wr _ v .aySelect _ _ _ => some (.select v)
